@@ -66,6 +66,25 @@ func dataPaths() []struct {
 		{"direct-compare-and-switch", func(n int, d Expr) []Stmt {
 			return []Stmt{Pr(Op("==", V("s"), d), Op("!=", d, S("q"))), Switch{Tag: V("s"), Cases: []Case{{Val: d, Body: []Stmt{Pr(S("same"))}}}, HasDef: true, DefPos: 1, Default: []Stmt{Pr(S("other"))}}}
 		}},
+		{"argument-beyond-ninth", func(n int, d Expr) []Stmt {
+			// eleven string parameters: the value travels through the tenth and the eleventh positional parameter
+			var ps []ParamDecl
+			for i := 1; i <= 11; i++ {
+				ps = append(ps, Pm("p"+string(rune('a'+i-1)), TString))
+			}
+			args := func(at int) []Expr {
+				var as []Expr
+				for i := 1; i <= 11; i++ {
+					if i == at {
+						as = append(as, V("s"))
+					} else {
+						as = append(as, S("a"+string(rune('a'+i-1))))
+					}
+				}
+				return as
+			}
+			return []Stmt{Fn("w", ps, nil, Pr(S("<"), V("pa"), V("pj"), S("|"), V("pk"), S(">"))), Do(Call("w", args(10)...)), Do(Call("w", args(11)...)), Do(Call("w", args(1)...))}
+		}},
 		{"in-function-local", func(n int, d Expr) []Stmt {
 			return []Stmt{Fn("h", []ParamDecl{Pm("p", TString)}, []Type{TString}, Def("l", Op("+", V("p"), S("!"))), Def("a", Strs(V("l"))), Ret(Idx("a", N(0)))), Pr(Call("h", V("s")))}
 		}},
